@@ -5,6 +5,10 @@ type nat =
 | O
 | S of nat
 
+val fst : ('a1 * 'a2) -> 'a1
+
+val snd : ('a1 * 'a2) -> 'a2
+
 val length : 'a1 list -> nat
 
 val app : 'a1 list -> 'a1 list -> 'a1 list
@@ -15,6 +19,8 @@ type comparison =
 | Gt
 
 val compOpp : comparison -> comparison
+
+val sub : nat -> nat -> nat
 
 type positive =
 | XI of positive
@@ -29,6 +35,23 @@ type z =
 | Z0
 | Zpos of positive
 | Zneg of positive
+
+module Nat :
+ sig
+  val add : nat -> nat -> nat
+
+  val sub : nat -> nat -> nat
+
+  val leb : nat -> nat -> bool
+
+  val ltb : nat -> nat -> bool
+
+  val divmod : nat -> nat -> nat -> nat -> nat * nat
+
+  val div : nat -> nat -> nat
+
+  val modulo : nat -> nat -> nat
+ end
 
 module Pos :
  sig
@@ -84,9 +107,13 @@ val rev : 'a1 list -> 'a1 list
 
 val map : ('a1 -> 'a2) -> 'a1 list -> 'a2 list
 
+val fold_right : ('a2 -> 'a1 -> 'a1) -> 'a1 -> 'a2 list -> 'a1
+
 val forallb : ('a1 -> bool) -> 'a1 list -> bool
 
 val filter : ('a1 -> bool) -> 'a1 list -> 'a1 list
+
+val repeat : 'a1 -> nat -> 'a1 list
 
 val ex_keep : (((((nat * n) * z) * z list) * z option) * positive) * bool
 
@@ -181,6 +208,18 @@ type outcome =
 
 val int_token_outcome : bool -> z -> z list -> outcome
 
+val dot_ev : event
+
+val dots : nat -> event list
+
+val dot_tokens : nat -> nat list
+
+val import_level : nat list -> nat
+
+val longest_from : ere -> event list -> nat -> nat -> nat
+
+val longest : ere -> event list -> nat
+
 val x_lex_int : ere
 
 val x_lex_float : ere
@@ -204,3 +243,9 @@ val x_token_kind : bool -> z list -> z
 val x_py_kind : z list -> z
 
 val x_strbegin : z list -> bool * bool
+
+val x_lex_text : ere
+
+val x_lex_number : bool -> ere
+
+val x_scan_dots : nat -> bool -> nat -> nat list
